@@ -47,6 +47,10 @@ type Stream struct {
 	Closed                      bool
 	SyncReads, AsyncReads       int
 	zeroReads                   int
+
+	// OnSyncRead, if set, runs at the start of every synchronous Read: the moment the reader goes back to the transport
+	// for more bytes.
+	OnSyncRead func()
 }
 
 type op struct {
@@ -95,6 +99,9 @@ func (s *Stream) read(b []byte) (int, error) {
 
 func (s *Stream) Read(b []byte) (int, error) {
 	s.SyncReads++
+	if s.OnSyncRead != nil {
+		s.OnSyncRead()
+	}
 	return s.read(b)
 }
 
